@@ -503,13 +503,13 @@ pub fn gen_writes(rng: &mut Rng, n: usize, cfg: &WriteCfg) -> Vec<WriteEv> {
             }
         }
         if cfg.short_pm > 0 && rng.chance(cfg.short_pm, 1000) {
-            let k = match rng.below(4) {
-                0 => 1,
-                1 => rng.usize(1, 4),
-                2 => rng.usize(1, 40),
-                _ => rng.usize(1, 1019),
+            match rng.below(5) {
+                0 => evs.push(WriteEv::Accept(1)),
+                1 => evs.push(WriteEv::Accept(rng.usize(1, 4))),
+                2 => evs.push(WriteEv::Accept(rng.usize(1, 40))),
+                3 => evs.push(WriteEv::AllBut(rng.usize(1, 3))),
+                _ => evs.push(WriteEv::Accept(rng.usize(1, 1019))),
             };
-            evs.push(WriteEv::Accept(k));
         } else {
             evs.push(WriteEv::Accept(usize::MAX >> 1));
         }
